@@ -105,7 +105,7 @@ func main() {
 			}
 			ov["Replace"][name] = dst
 			done++
-			fmt.Fprintf(os.Stderr, "rewrite: %s: %d yields, %d chan ops, %d selects, %d go stmts\n", rel, rw.nYield, rw.nChan, rw.nSel, rw.nGo)
+			fmt.Fprintf(os.Stderr, "rewrite: %s: %d yields, %d chan ops, %d selects, %d go stmts, %d map ranges\n", rel, rw.nYield, rw.nChan, rw.nSel, rw.nGo, rw.nMap)
 		}
 	}
 	if done != len(want) {
@@ -126,7 +126,7 @@ type rewriter struct {
 	tmp   int
 
 	commOps map[ast.Node]bool // send stmts / recv exprs that are the communication of a select case
-	nYield, nChan, nSel, nGo int
+	nYield, nChan, nSel, nGo, nMap int
 }
 
 func (rw *rewriter) pos(n ast.Node) string { return rw.fset.Position(n.Pos()).String() }
@@ -148,6 +148,75 @@ func (rw *rewriter) isChan(e ast.Expr) bool {
 	}
 	_, isCh := tv.Type.Underlying().(*types.Chan)
 	return isCh
+}
+
+func (rw *rewriter) isMap(e ast.Expr) bool {
+	tv, ok := rw.info.Types[e]
+	if !ok || tv.Type == nil {
+		return false
+	}
+	_, isMap := tv.Type.Underlying().(*types.Map)
+	return isMap
+}
+
+// mapRange makes the iteration order of `for k, v := range m` canonical:
+//
+//	for _, __mk := range __sched.MapKeys(m) { v, __ok := m[__mk]; if !__ok { continue }; k := __mk; body }
+//
+// (an entry deleted during the iteration is skipped, as Go does; entries inserted during it are not visited, which
+// Go allows).  The map expression is evaluated again per element, so it must be free of calls.
+func (rw *rewriter) mapRange(x *ast.RangeStmt) {
+	hasCall := false
+	ast.Inspect(x.X, func(n ast.Node) bool {
+		if _, ok := n.(*ast.CallExpr); ok {
+			hasCall = true
+		}
+		return true
+	})
+	if hasCall {
+		die("%s: range over a map produced by a call is not supported by the instrumenter", rw.pos(x))
+	}
+	rw.nMap++
+	mk := rw.fresh("mk")
+	isBlank := func(e ast.Expr) bool {
+		id, ok := e.(*ast.Ident)
+		return e == nil || (ok && id.Name == "_")
+	}
+	var pre []ast.Stmt
+	if !isBlank(x.Value) {
+		okv := rw.fresh("ok")
+		pre = append(pre, &ast.AssignStmt{Lhs: []ast.Expr{x.Value, okv}, Tok: x.Tok,
+			Rhs: []ast.Expr{&ast.IndexExpr{X: x.X, Index: mk}}})
+		if x.Tok == token.ASSIGN {
+			// `for k, v = range m` with pre-declared variables: ok needs its own declaration
+			pre = []ast.Stmt{
+				&ast.AssignStmt{Lhs: []ast.Expr{ast.NewIdent("_"), okv}, Tok: token.DEFINE, Rhs: []ast.Expr{&ast.IndexExpr{X: x.X, Index: mk}}},
+				&ast.AssignStmt{Lhs: []ast.Expr{x.Value}, Tok: token.ASSIGN, Rhs: []ast.Expr{&ast.IndexExpr{X: x.X, Index: mk}}},
+			}
+		}
+		pre = append(pre, &ast.IfStmt{Cond: &ast.UnaryExpr{Op: token.NOT, X: okv},
+			Body: &ast.BlockStmt{List: []ast.Stmt{&ast.BranchStmt{Tok: token.CONTINUE}}}})
+	} else {
+		okv := rw.fresh("ok")
+		pre = append(pre, &ast.AssignStmt{Lhs: []ast.Expr{ast.NewIdent("_"), okv}, Tok: token.DEFINE,
+			Rhs: []ast.Expr{&ast.IndexExpr{X: x.X, Index: mk}}})
+		pre = append(pre, &ast.IfStmt{Cond: &ast.UnaryExpr{Op: token.NOT, X: okv},
+			Body: &ast.BlockStmt{List: []ast.Stmt{&ast.BranchStmt{Tok: token.CONTINUE}}}})
+	}
+	if !isBlank(x.Key) {
+		pre = append(pre, &ast.AssignStmt{Lhs: []ast.Expr{x.Key}, Tok: x.Tok, Rhs: []ast.Expr{mk}})
+		if x.Tok == token.DEFINE {
+			pre = append(pre, &ast.AssignStmt{Lhs: []ast.Expr{ast.NewIdent("_")}, Tok: token.ASSIGN, Rhs: []ast.Expr{x.Key}})
+		}
+	}
+	if !isBlank(x.Value) && x.Tok == token.DEFINE {
+		pre = append(pre, &ast.AssignStmt{Lhs: []ast.Expr{ast.NewIdent("_")}, Tok: token.ASSIGN, Rhs: []ast.Expr{x.Value}})
+	}
+	x.Body.List = append(pre, x.Body.List...)
+	x.Key = ast.NewIdent("_")
+	x.Value = mk
+	x.Tok = token.DEFINE
+	x.X = call(schedName, "MapKeys", x.X)
 }
 
 func (rw *rewriter) run() {
@@ -249,6 +318,8 @@ func (rw *rewriter) run() {
 			if rw.isChan(x.X) {
 				rw.nChan++
 				x.X = call(schedName, "RangeChan", x.X)
+			} else if rw.isMap(x.X) && (x.Key != nil || x.Value != nil) {
+				rw.mapRange(x)
 			}
 		case *ast.GoStmt:
 			rw.nGo++
@@ -270,7 +341,7 @@ func (rw *rewriter) run() {
 }
 
 func (rw *rewriter) dropUnusedSchedImport() {
-	if rw.nYield+rw.nChan+rw.nSel+rw.nGo == 0 {
+	if rw.nYield+rw.nChan+rw.nSel+rw.nGo+rw.nMap == 0 {
 		astutil.DeleteNamedImport(rw.fset, rw.file, schedName, "verif/mc/sched")
 	}
 }
